@@ -342,8 +342,79 @@ def mod_solow(G: Builder, rng: Rng):
     G.tags.append("solow")
 
 
+def finish_case(G: Builder, linear, flat, plan, split, solver) -> dict:
+    eq_text = lambda lr: f"{to_text(lr[0])} = {to_text(lr[1])}"
+    src = ["!transition-variables\n    " + ", ".join(G.tvars)]
+    if G.logs: src.append("!log-variables\n    " + ", ".join(G.logs))
+    src.append("!parameters\n    " + ", ".join(G.params))
+    if G.shocks: src.append("!transition-shocks\n    " + ", ".join(G.shocks))
+    src.append("!transition-equations\n" + "\n".join(f"    {eq_text(e)};" for e in G.teqs))
+    return {
+        "source": "\n".join(src) + "\n", "linear": linear, "flat": flat, "nv": G.nv, "params": G.params, "init": dict(G.init),
+        "plan": plan, "split": split, "tags": G.tags, "solver": solver,
+        "teqs": G.teqs, "meqs": [], "autos": [], "tvars": G.tvars, "mvars": [], "logs": G.logs, "shocks": G.shocks,
+    }
+
+
+def gen_hard_case(rng: Rng) -> dict:
+    """models and starting points on which an iteration can stall away from a root: residuals with a local extremum
+    away from zero, systems without a real solution for the drawn parameters, plans that overdetermine a block.
+    The property makes no claim when solve_steady raises; it demands the equations whenever it completes -- with every
+    solver option. Polynomial cases are flat (constant paths), the overdetermined ones are linear (affine in the date),
+    so `holds at dates t, t+1` does imply `holds at every date` for whatever is accepted."""
+    G = Builder(1)
+    kind = rng.weighted([("cubic", 4), ("quad", 3), ("prodsum", 3), ("overdet", 3)])
+    solver = rng.choice(list(SOLVERS))
+    split = rng.choice([None, True, False])
+    plan = None
+    flat = True
+    x = G.fresh("x"); G.tvars.append(x)
+    if kind == "cubic":
+        # x^3 + p*x + a = b*(x - x[-1]): local extrema of the residual at +-sqrt(-p/3), of size a -+ 2(-p/3)^1.5
+        p, loc, ext = rng.choice([(-3.0, 1.0, 2.0), (-0.75, 0.5, 0.25), (-12.0, 2.0, 16.0)])
+        a = G.param("a", [ext + 1.0, -(ext + 1.0), ext + 0.5, -(ext + 2.0), ext - 0.125 * ext], rng)
+        b = G.param("b", [0.25, 0.5, 0.125], rng)
+        G.teqs.append((add(ipow(T(x), 3), mul(N(p), T(x)), T(a)), mul(T(b), sub(T(x), T(x, -1)))))
+        G.init[x] = (loc * rng.choice([-3.0, -2.0, -0.5, 0.875, 1.25, 2.5]), None)
+    elif kind == "quad":
+        # x*x + c = b*(x - x[-1]): no real root when c > 0 (the squared residual still has a minimum at 0)
+        c = G.param("c", [1.0, 0.5, 2.0, -1.0, -4.0, -0.25], rng)
+        b = G.param("b", [0.25, 0.5], rng)
+        G.teqs.append((add(mul(T(x), T(x)), T(c)), mul(T(b), sub(T(x), T(x, -1)))))
+        G.init[x] = (rng.choice([-2.0, -0.5, 0.25, 1.5, 3.0]), None)
+    elif kind == "prodsum":
+        # x*y = a, x + y = s: real solutions iff s^2 >= 4a
+        y = G.fresh("y"); G.tvars.append(y)
+        a = G.param("a", [1.0, 2.0, 4.0, 0.75], rng)
+        sm = G.param("s", [1.0, 2.0, 3.0, 5.0, 2.5], rng)
+        G.teqs.append((mul(T(x), T(y, -1)), T(a)))
+        G.teqs.append((add(T(x), T(y)), T(sm)))
+        G.init[x] = (rng.choice([0.5, 1.0, 2.0, -1.0, 3.0]), None)
+        G.init[y] = (rng.choice([0.5, 1.0, 2.0, 4.0]), None)
+    else:
+        # growth mode, level of an AR variable fixed away from (or at) its only steady level: nothing left to solve it with
+        flat = False
+        rho = G.param("rho", [0.5, 0.25, 0.75], rng)
+        a = G.param("a", [1.0, 2.0, -1.0], rng)
+        e = G.fresh("e"); G.shocks.append(e)
+        G.teqs.append((T(x), add(mul(T(rho), T(x, -1)), mul(sub(N(1), T(rho)), T(a)), T(e))))
+        level = G.params[a][0] + rng.choice([0.0, 0.0, 1.0, -0.5, 0.25])
+        G.init[x] = (level, rng.choice([None, 0.0, 0.25]))
+        plan = {"exogenized": [], "endogenized": [], "fixed_level": [x], "fixed_change": []}
+    # followers, so that there is more than one block
+    z = G.fresh("z"); w = G.fresh("w"); G.tvars += [z, w]
+    G.teqs.append((T(z), add(mul(N(2.0), T(x)), mul(N(0.5), T(z, -1)))))
+    G.teqs.append((T(w), sub(T(z, 1), T(x, -2))))
+    G.init[z] = (rng.choice([1.0, 0.0, 4.0]), None)
+    G.init[w] = (rng.choice([1.0, 0.0]), None)
+    G.tags += ["hard", kind]
+    return finish_case(G, False, flat, plan, split, solver)
+
+
 def gen_case(rng: Rng, force=None) -> dict:
     """a generated model with its flags, parameters, initial values and (possibly) a steady plan"""
+    if force and force.get("hard"):
+        return gen_hard_case(rng)
     linear = rng.chance(0.4) if force is None else force.get("linear", False)
     flat = rng.chance(0.35) if force is None else force.get("flat", False)
     nv = rng.weighted([(1, 5), (2, 3), (3, 2)])
@@ -419,13 +490,14 @@ def gen_case(rng: Rng, force=None) -> dict:
     return {
         "source": "\n".join(src) + "\n", "linear": linear, "flat": flat, "nv": nv, "params": G.params, "init": init,
         "plan": plan if has_plan else None, "split": split, "tags": G.tags,
+        "solver": rng.weighted([("neqs_levenberg", 2), ("scipy_root", 1)]) if not linear else None,
         "teqs": G.teqs, "meqs": G.meqs, "autos": G.autos, "tvars": G.tvars, "mvars": G.mvars, "logs": G.logs, "shocks": G.shocks,
     }
 
 
 def case_for_json(case):
     """JSON form of a case; the generator seed lets a replay rebuild the equation trees"""
-    d = {k: case[k] for k in ("source", "linear", "flat", "nv", "params", "init", "plan", "split", "tags") if k in case}
+    d = {k: case[k] for k in ("source", "linear", "flat", "nv", "params", "init", "plan", "split", "tags", "solver") if k in case}
     if "gen_seed" in case:
         d["gen_seed"], d["force"] = case["gen_seed"], case.get("force")
     return d
@@ -439,35 +511,43 @@ _RECORD: list | None = None
 _UNSORTED = 0
 
 
-def _c05_spy(steady_evaluator, maybelog_init_guess, solver_settings):
-    """delegates to the real default solver (looked up at call time) and records what the model needs"""
-    out = SD.neqs_levenberg(steady_evaluator, maybelog_init_guess, solver_settings=solver_settings)
-    final, success, status = out
-    if _RECORD is not None and success:
-        ev = steady_evaluator
-        where = set(ev._where_logly)
-        lev_q = [q for q, b in zip(ev.wrt_qids, ev._bool_index_wrt_levels) if b]
-        chg_q = [q for q, b in zip(ev.wrt_qids, ev._bool_index_wrt_changes) if b] if ev._bool_index_wrt_changes else []
-        pos = {q: i for i, q in enumerate(ev.wrt_qids)}
-        g = np.array(final, dtype=float)
-        nl = len(lev_q)
-        # the order of the unknowns inside the guess vector is CPython's set order (e.g. [8, 1, 2]); it has no observable
-        # effect (residuals are ordered by equation), the model uses increasing qid: permute the guess accordingly
-        dl = sorted((q, float(np.exp(x)) if pos[q] in where else float(x)) for q, x in zip(lev_q, g[:nl]))
-        dc = sorted((q, float(np.exp(x)) if pos[q] in where else float(x)) for q, x in zip(chg_q, g[nl:]))
-        delog = [x for _, x in dl] + [x for _, x in dc]
-        if lev_q != sorted(lev_q) or chg_q != sorted(chg_q):
-            global _UNSORTED
-            _UNSORTED += 1
-        lev_q, chg_q = sorted(lev_q), sorted(chg_q)
-        resid = np.array(ev.eval_func(g), dtype=float).flatten().tolist()
-        _RECORD.append({"wrt_qids": list(ev.wrt_qids), "lev_q": lev_q, "chg_q": chg_q, "guess": delog, "resid": resid,
-                        "maybelog": g.tolist()})
-    return out
+def _make_spy(real_name: str):
+    """a recording solver: delegates to the real solver `real_name` of solver_dispatcher (looked up at call time, so a
+    changed facade is what runs) and records what the model needs to replay the block"""
+    def spy(steady_evaluator, maybelog_init_guess, solver_settings):
+        out = getattr(SD, real_name)(steady_evaluator, maybelog_init_guess, solver_settings=solver_settings)
+        final, success, status = out
+        if _RECORD is not None and success:
+            ev = steady_evaluator
+            where = set(ev._where_logly)
+            lev_q = [q for q, b in zip(ev.wrt_qids, ev._bool_index_wrt_levels) if b]
+            chg_q = [q for q, b in zip(ev.wrt_qids, ev._bool_index_wrt_changes) if b] if ev._bool_index_wrt_changes else []
+            pos = {q: i for i, q in enumerate(ev.wrt_qids)}
+            g = np.array(final, dtype=float)
+            nl = len(lev_q)
+            # the order of the unknowns inside the guess vector is CPython's set order (e.g. [8, 1, 2]); it has no observable
+            # effect (residuals are ordered by equation), the model uses increasing qid: permute the guess accordingly
+            dl = sorted((q, float(np.exp(x)) if pos[q] in where else float(x)) for q, x in zip(lev_q, g[:nl]))
+            dc = sorted((q, float(np.exp(x)) if pos[q] in where else float(x)) for q, x in zip(chg_q, g[nl:]))
+            delog = [x for _, x in dl] + [x for _, x in dc]
+            if lev_q != sorted(lev_q) or chg_q != sorted(chg_q):
+                global _UNSORTED
+                _UNSORTED += 1
+            lev_q, chg_q = sorted(lev_q), sorted(chg_q)
+            resid = np.array(ev.eval_func(g), dtype=float).flatten().tolist()
+            _RECORD.append({"wrt_qids": list(ev.wrt_qids), "lev_q": lev_q, "chg_q": chg_q, "guess": delog, "resid": resid,
+                            "maybelog": g.tolist(), "solver": real_name})
+        return out
+    return spy
 
 
-SD.c05_spy = _c05_spy
-SD.create_solver_settings_for_c05_spy = lambda **kw: SD.create_solver_settings_for_neqs_levenberg(**kw)
+# solver option of solve_steady -> name of the recording wrapper registered in solver_dispatcher
+SOLVERS = ("neqs_levenberg", "scipy_root")
+SPY = {name: "c05_spy_" + name for name in SOLVERS}
+for _name in SOLVERS:
+    setattr(SD, SPY[_name], _make_spy(_name))
+    setattr(SD, "create_solver_settings_for_" + SPY[_name],
+            (lambda real: (lambda **kw: getattr(SD, "create_solver_settings_for_" + real)(**kw)))(_name))
 
 
 def build(case):
@@ -502,7 +582,9 @@ def solve(m, plan, case, spy=True):
     if not case["linear"]:
         if plan is not None: kwargs["plan"] = plan
         if case["split"] is not None: kwargs["split_into_blocks"] = case["split"]
-        if spy: kwargs["solver"] = "c05_spy"
+        name = case.get("solver") or "neqs_levenberg"
+        if spy: kwargs["solver"] = SPY[name]
+        elif name != "neqs_levenberg": kwargs["solver"] = name      # the public option, exactly as a user passes it
     _RECORD = []
     try:
         with contextlib.redirect_stdout(io.StringIO()), np.errstate(all="ignore"):
@@ -688,7 +770,7 @@ def compare_steady(ctx: Ctx, case, vid, line, meta, reply, after_loop, after_aut
                 ctx.disagree("steady", cj, "block skipped by the implementation", mb); return
             ctx.count("blocks_skipped")
             continue
-        mm = re.match(r"WL (\S*) WC (\S*) R (.*) X ([TF])$", mb)
+        mm = re.match(r"WL (\S*) WC (\S*) R (.*) X ([TF]) X2 ([TF])$", mb)
         if not mm:
             ctx.disagree("steady", cj, "block solved by the implementation", mb); return
         wl = ",".join(map(str, rec["lev_q"])); wc = ",".join(map(str, rec["chg_q"]))
@@ -706,8 +788,12 @@ def compare_steady(ctx: Ctx, case, vid, line, meta, reply, after_loop, after_aut
                 continue
             if not close(cell(a), r, tol=1e-9):
                 ctx.disagree("steady", cj, f"residual[{i}] = {a!r}", f"{r} in {mb[:200]}"); return
-        if allrat and mm.group(4) != "T":
-            ctx.disagree("steady", cj, "exit test passed in the implementation", mb); return
+        # the block was accepted by the implementation: the model's acceptance test of that solver must pass on the same
+        # residuals (neqs_levenberg: sup-norm < tol; scipy_root: 2-norm < tol)
+        accepted = mm.group(5) if rec.get("solver") == "scipy_root" else mm.group(4)
+        if allrat and accepted != "T":
+            ctx.disagree("steady", cj, f"block accepted by solver {rec.get('solver')} (residuals {ires[:6]})", mb); return
+        ctx.count("blocks_accepted_by:" + str(rec.get("solver")))
         ctx.count("blocks_replayed")
         ctx.count(f"block_size_{min(ne, 6)}")
     for name, part, (lv, ch) in (("after-loop", (parts[1], parts[2]), after_loop),):
@@ -884,7 +970,8 @@ def run_case(ctx: Ctx, case, pending, with_model=True) -> str:
     okk, err, records = solve_two_step(m, plan, case)
     if not okk:
         ctx.count("solve_raised")
-        ctx.count("solve_raised:" + ("+".join(case["tags"])))
+        if "hard" not in case["tags"]:
+            ctx.count("solve_raised:" + ("+".join(case["tags"])))
         ctx.extra.setdefault("solve_errors", [])
         if len(ctx.extra["solve_errors"]) < 5:
             ctx.extra["solve_errors"].append(err)
@@ -894,6 +981,8 @@ def run_case(ctx: Ctx, case, pending, with_model=True) -> str:
     ctx.count("mode:" + ("linear" if case["linear"] else "nonlinear") + ("-flat" if case["flat"] else "-growth"))
     ctx.count("variants:%d" % case["nv"])
     ctx.count("split:" + str(case["split"]))
+    if not case["linear"]:
+        ctx.count("solver:" + str(case.get("solver")))
     if case["plan"]:
         ctx.count("with_plan")
         for k, v in case["plan"].items():
@@ -902,7 +991,7 @@ def run_case(ctx: Ctx, case, pending, with_model=True) -> str:
         ctx.count("module:" + t)
     good = oracle(ctx, case, m, before)
     ctx.nontriv((case["linear"], case["flat"], case["nv"], case["split"], tuple(case["tags"]), bool(case["plan"]),
-                 len(case["teqs"]) + len(case["meqs"])))
+                 len(case["teqs"]) + len(case["meqs"]), case.get("solver")))
     ctx.sample({"source": case["source"], "linear": case["linear"], "flat": case["flat"], "plan": case["plan"], "split": case["split"],
                 "levels": {k: v for k, v in list(zip(m.create_name_to_qid().keys(), m._variants[0].levels.values()))[:6]}})
     if with_model:
@@ -929,7 +1018,7 @@ def solve_two_step(m, plan, case):
     if not case["linear"]:
         if plan is not None: kwargs["plan"] = plan
         if case["split"] is not None: kwargs["split_into_blocks"] = case["split"]
-        kwargs["solver"] = "c05_spy"
+        kwargs["solver"] = SPY[case.get("solver") or "neqs_levenberg"]
     per_variant = []
     try:
         with contextlib.redirect_stdout(io.StringIO()), np.errstate(all="ignore"):
@@ -1012,7 +1101,9 @@ def run(ctx: Ctx):
     ctx.rule = ("random models composed of modules (stationary AR blocks with lags/leads and cross links, unit root with drift, "
                 "log-linear growth, rational balanced growth with log-variables, stationary products/ratios, Solow with real power), "
                 "linear/nonlinear x flat/growth, 1-3 variants, split_into_blocks in {None, True, False}, steady plans (swap, fix level, "
-                "fix change). distinct_nontrivial = distinct (linear, flat, variants, split, module list, plan?, #equations) among "
+                "fix change), solver option in {neqs_levenberg, scipy_root}; plus a hard-start family (cubic / quadratic residuals with local "
+                "extrema or no real root, product-sum systems, overdetermining plans) from good and bad starting points with both solvers. "
+                "distinct_nontrivial = distinct (linear, flat, variants, split, module list, plan?, #equations, solver) among "
                 "solved cases, plus distinct non-constant path requests")
     for path, payload in corpus_cases():
         replay(ctx, payload)
@@ -1040,9 +1131,23 @@ def run(ctx: Ctx):
             flush(ctx, pending); pending.clear()
     flush(ctx, pending)
     run_wrt(ctx, models)
+    solved = ctx.counts.get("solved", 0)
+    # hard starts / unsolvable systems / overdetermining plans, with every solver option: the solver has to either
+    # raise or store a steady state that satisfies the equations
+    hrng = ctx.rng.fork("hard")
+    pending = []
+    for i in range(ctx.n(48, 500)):
+        seed = hrng.next()
+        force = {"hard": True}
+        case = gen_case(Rng(seed), force)
+        case["gen_seed"], case["force"] = seed, force
+        status = run_case(ctx, case, pending)
+        ctx.count(f"hard:{case['tags'][-1]}:{case['solver']}:{'completed' if status in ('ok', 'oracle-failed') else 'raised'}")
+        if case["solver"] != "neqs_levenberg":
+            end_to_end_default_entry(ctx, case)      # the non-default option under its public name, without the recorder
+    flush(ctx, pending)
     ctx.extra["programs"] = ctx.counts.get("solved", 0)
     ctx.counts["evaluators_with_unsorted_set_order"] = _UNSORTED
-    solved = ctx.counts.get("solved", 0)
     if solved < ncases // 2:
         from .common import InternalError
         raise InternalError(f"only {solved} of {ncases} generated models were solved by the implementation: generator out of tune "
@@ -1061,7 +1166,8 @@ def search(ctx: Ctx, seeds):
     rng = ctx.rng.fork("search")
     for i in range(1500):
         seed = rng.next()
-        case = gen_case(Rng(seed)); case["gen_seed"], case["force"] = seed, None
+        force = {"hard": True} if i % 3 == 2 else None
+        case = gen_case(Rng(seed), force); case["gen_seed"], case["force"] = seed, force
         run_case(ctx, case, pending, with_model=False)
         if len(ctx.failures) >= 3:
             break
